@@ -202,6 +202,20 @@ fn hpx_uniq<T: Idx + num::CheckedAdd>(sink: &mut Sink, rng: &mut Rng, w: u32, th
       format!("{}|{}", d, fmt_ranges(&to_u64_ranges(&back.0 .0)))
     }));
     sink.emit(&format!("same hpx-uniq-ranges{} {} {}", w, d, fmt_ranges(&l)), &ans, !l.is_empty());
+    // the NUNIQ -> nested iterator itself (`UniqToHpxIter`), range by range, on the NUNIQ ranges of this MOC
+    let ans = guarded(AssertUnwindSafe(|| {
+      let u = m.clone().into_moc_ranges().into_hpx_uniq();
+      let urs: Vec<Range<u64>> = u.iter().map(|r| r.start.to_u64()..r.end.to_u64()).collect();
+      if urs.iter().map(|r| r.end - r.start).sum::<u64>() > 3000 { return "skip".to_string(); }
+      let out: Vec<Range<u64>> = moc::elemset::range::hpx::UniqToHpxIter::new(moc::elemset::range::HpxRanges::<T>::new_unchecked(
+        u.iter().cloned().collect())).map(|r| r.start.to_u64()..r.end.to_u64()).collect();
+      format!("{}#{}", fmt_ranges(&urs), fmt_ranges(&out))
+    }));
+    if ans != "skip" {
+      if let Some((urs, out)) = ans.split_once('#') {
+        sink.emit(&format!("u_tohpx {} {}", w, urs), out, !l.is_empty());
+      } else { sink.emit(&format!("u_tohpx {} _", w), &ans, true); }
+    }
     // the NUNIQ view itself must be the NORMAL form: exactly the NUNIQ numbers of the largest aligned cells
     // (a representation covering the same set with four siblings instead of their parent is not)
     let ans = guarded(AssertUnwindSafe(|| {
